@@ -169,12 +169,30 @@ inductive Kind
   | iq (type : IqType)
   deriving DecidableEq, Repr
 
+/-- a stanza as the server handles it internally: `from`/`to` as `QDomElement::attribute()` returns them -/
 structure Stanza where
   kind : Kind
-  sender : List Char      -- the `from` attribute ([] = absent or empty)
+  sender : List Char      -- the `from` attribute
   to : List Char
   id : List Char := []
   deriving DecidableEq, Repr
+
+/-- `QDomElement::attribute(name)`: the empty string both for an absent attribute and for a present, empty one -/
+def attrValue : Option (List Char) → List Char
+  | some v => v
+  | none => []
+
+/-- a stanza as the client writes it: `from` / `to` may be absent (`none`), present and empty (`some []`), or anything -/
+structure StanzaIn where
+  kind : Kind
+  sender : Option (List Char) := none
+  to : Option (List Char) := none
+  id : List Char := []
+  deriving DecidableEq, Repr
+
+/-- what the code reads off the element (it never asks `hasAttribute`) -/
+def StanzaIn.attrs (st : StanzaIn) : Stanza :=
+  { kind := st.kind, sender := attrValue st.sender, to := attrValue st.to, id := st.id }
 
 inductive Cond
   | none | invalidMechanism | notAuthorized | temporaryAuthFailure | aborted
@@ -236,7 +254,7 @@ inductive Ev
   /-- `<iq type='set'><bind/></iq>`; [] = no resource requested -/
   | bind (res : List Char)
   | session
-  | stanza (st : Stanza)
+  | stanza (st : StanzaIn)
   | closeStream
   | deliver (i : Nat)
   /-- the element `e`, arriving in the same TCP read as the previous element of this connection (several elements in one
@@ -443,7 +461,7 @@ def connStep (cfg : Cfg) (fresh : List Char) (c : Conn) (ev : Ev) : CRes :=
   | .closeStream => gate c (disconnect c [])
   | .bind res => gate c (clientGate c (bindStep fresh c res))
   | .session => gate c (clientGate c { conn := c, outs := [.send (.sessionResult c.jid)] })
-  | .stanza st => gate c (clientGate c (clientStanza cfg c st))
+  | .stanza st => gate c (clientGate c (clientStanza cfg c st.attrs))
   | .sameRead _ => idle c
 
 /-- one element of a connection.  An element that arrives in the same read as the previous one is an element like any
